@@ -66,6 +66,10 @@ CHECKS["C10"] = dict(
     text="Proved for ANY number of tasks with ANY poll scripts, ANY schedule/dispatch program of the loop thread, ANY number of waker threads with ANY wake programs, ANY batch limit and ANY schedule (one mpsc enqueue, notified swap/store, eventfd write/read, poll or try_recv per step): a queued runnable always has a wake-up on its way and the notified flag is only set while the eventfd is readable, its setter is about to ping, or the loop is about to clear it (C10_no_lost_wake - the #227 regression breaks exactly this); tasks are polled and their results delivered only by steps of the loop thread; a completing poll delivers the output exactly once. PARTIAL: Executor::drop (all futures dropped, ExecutorDestroyed; finding F13 for a drop racing a wake) and StreamSource are not in the proved model; StreamSource is run sequentially against its specification (items in order once, one None, removal). Correspondence: ~500 schedules per quick run on real threads vs the extracted model (identical step/yield-id/poll/completion traces) + an oracle (every enqueued runnable polled, outputs once, loop-thread-only polls and drops).",
     note="async-task and slab are assumed (DESIGN.md 6.5). Wakes during a poll cannot be scheduled by the baton scheduler (no yield point inside a poll). The 1024 batch limit is proved for an arbitrary limit; the real constant is exercised only by calloop's own more_than_1024 test. No axioms.",
     technique="Coq proof (invariant by induction over arbitrary schedules) + controlled-scheduler differential correspondence on real threads", ref="DESIGN.md 4 (C10)")
+CHECKS["C17"] = dict(
+    text="PARTIAL. Proved on a model of one direction of an adapter (task polls with any OS-reported transfer sizes, peer progress, dispatches, in ANY interleaving): a suspended task always has its waker stored and its one-shot registration armed; once the fd can transfer one dispatch makes it runnable again (no lost wake); a runnable task makes progress of 1..min(wanted, transferable) bytes; bytes are conserved (moved + transferable = offered). Checked end to end every run on a real UnixStream pair (payloads up to 300 kB/1 MiB, chunk sizes 1..all, both task orders, early dispatch, blocking or non-blocking fd beforehand, drop or into_inner): bytes read == bytes written, both tasks finish, O_NONBLOCK restored, the fds leave the poller table (/proc) and can be adapted again; the reader's event log (polls, read sizes, WouldBlock, peer writes, dispatches) is replayed in the Coq model which must agree at every event. Two repairs: fix F6a (fd never unregistered) and fix F6b (failed adapt_io leaks).",
+    note="Byte content, fcntl flags and the kernel table are observed, not proved. One outstanding operation per adapter; split() halves sharing the single waker are out of scope (recorded observation). The socket is an assumed FIFO. No axioms.",
+    technique="Coq proof of the waker / one-shot re-arming protocol + model replay of real event logs + end-to-end oracle on real sockets", ref="DESIGN.md 4 (C17)")
 
 def main():
     props = [json.loads(l) for l in open(os.path.join(ROOT, "properties.jsonl"))]
